@@ -393,6 +393,9 @@ HISTORY = [
     ("DADL (BCD and accumulator temps)", [0xC4, 0x10, 0x20], None),
     ("near CALL on another 64K page (return-page bookkeeping)", [0x04, 0x34, 0x12], 0x31000),
     ("ADCL with a non-zero result (zero accumulator temp left dirty)", [0x54, 0x10, 0x20], None),
+    # the power-state flag is neither a register, a flag nor memory: an earlier HALT that left it set
+    # must not change what an instruction does to registers, flags and memory
+    ("HALT executed before (power-state flag left set)", [0xDE], None, "keep-halted"),
 ]
 
 
@@ -438,13 +441,16 @@ def run_path_hist(eng, pre, opcode, hist_idx, block_n=None, addr=0x1000):
         init["I"] = block_n
     pc0 = eng.fresh("PC0", 20)
 
+    keep_halted = len(HISTORY[hist_idx]) > 3 and HISTORY[hist_idx][3] == "keep-halted"
+
     def load_arch(emu, tag):
         for r in REGS:
             emu.regs.set(RN[r], init[r])
         emu.regs.set(RN.PC, pc0)
         for i in range(EMU.NUM_TEMP_REGISTERS):
             emu.regs._values[RN[f"TEMP{i}"]] = eng.fresh(f"{tag}TEMP{i}", 24)
-        emu.state.halted = False
+        if not (keep_halted and tag == "b"):
+            emu.state.halted = False
 
     def execute(emu):
         try:
@@ -470,7 +476,7 @@ def run_path_hist(eng, pre, opcode, hist_idx, block_n=None, addr=0x1000):
     # ---- run B: same process, an emulator with a history
     swb = _SwitchMem()
     hm = SymMem("hist", eng)
-    desc, hbytes, haddr = HISTORY[hist_idx]
+    desc, hbytes, haddr = HISTORY[hist_idx][:3]
     haddr = addr if haddr is None else haddr
     hb = hbytes if hbytes is not None else code + [0] * 6
     for i in range(16):
@@ -514,7 +520,8 @@ def run_path_hist(eng, pre, opcode, hist_idx, block_n=None, addr=0x1000):
     k = z3.BitVec("k!frame", W)
     eng.inputs.setdefault("k!frame", k)
     eng.prove("hist:mem", z3.Select(ma.arr, k) == z3.Select(mb.arr, k), detail=text)
-    eng.prove("hist:halted", z3.BoolVal(ea.state.halted == eb.state.halted), detail=text)
+    if not keep_halted or ea.state.halted:
+        eng.prove("hist:halted", z3.BoolVal(ea.state.halted == eb.state.halted), detail=text)
     mod1 = _module_state()
     diff = sorted(k for k in set(mod0) | set(mod1) if mod0.get(k) != mod1.get(k))
     eng.prove("module-state-unchanged", z3.BoolVal(not diff), detail=f"changed globals: {diff[:5]}")
